@@ -551,7 +551,11 @@ func opAct(g *gen, op string) []*act {
 var searchOps = []string{"sstore", "tstore", "log", "selfdestruct", "callvalue", "create", "create2", "authcall", "authcallvalue", "none"}
 
 func stdAccounts() []acct {
-	return []acct{{"e", 10, 1000000}, {"e", 11, 3}, {"h", 20, 1000}, {"h", 21, 0}, {"h", 22, 50}, {"h", 23, 7}, {"p", 4, 0}, {"e", 30, 5}}
+	return append(precAccounts(), stdAccounts0()...)
+}
+
+func stdAccounts0() []acct {
+	return []acct{{"e", 10, 1000000}, {"e", 11, 3}, {"h", 20, 1000}, {"h", 21, 0}, {"h", 22, 50}, {"h", 23, 7}, {"e", 30, 5}}
 }
 
 func runSearch(a map[string]string) {
@@ -620,10 +624,6 @@ func runSearch(a map[string]string) {
 			for _, end := range k.ends {
 				for _, op := range searchOps {
 					for depth := 1; depth <= 3; depth++ {
-						if time.Now().After(deadline) {
-							done = true
-							break
-						}
 						g := newGen(r.Fork(), st)
 						g.nextID = 2
 						blk := &block{cfg: cfg, accounts: stdAccounts(), salts: map[int]*frame{}}
@@ -651,10 +651,6 @@ func runSearch(a map[string]string) {
 	for _, cfg := range cfgs[:1] {
 		for _, nest := range []string{"", "call", "delegatecall", "callcode", "staticcall", "authcall", "call+delegatecall"} {
 			for _, op := range searchOps {
-				if done || time.Now().After(deadline) {
-					done = true
-					break
-				}
 				g := newGen(r.Fork(), st)
 				g.nextID = 2
 				blk := &block{cfg: cfg, accounts: stdAccounts(), salts: map[int]*frame{}}
@@ -672,11 +668,57 @@ func runSearch(a map[string]string) {
 			}
 		}
 	}
+	// 1b. precompile leaf frames: call kind x precompile 1..18 x outcome (ok / gas below price / bad input)
+	//     x value x depth x inside a STATICCALL or not
+	for _, k := range []string{"call", "callcode", "delegatecall", "staticcall", "authcall"} {
+		for n := 1; n <= 18; n++ {
+			for _, end := range []string{"stop", "oog", "invalid"} {
+				for _, value := range []int{0, 1} {
+					for depth := 1; depth <= 2; depth++ {
+						for _, inStatic := range []bool{false, true} {
+							if value != 0 && (k == "delegatecall" || k == "staticcall") {
+								continue
+							}
+							g := newGen(r.Fork(), st)
+							g.nextID = 2
+							blk := &block{cfg: cfgs[0], accounts: stdAccounts(), salts: map[int]*frame{}}
+							g.blk = blk
+							leaf := mk(g, k, end, nil, value)
+							leaf.addr = "b" + strconv.Itoa(100+n)
+							realizePrec(leaf)
+							if leaf.body.end != end {
+								continue // this outcome cannot be produced for this precompile / kind
+							}
+							f := wrapDepth(r, g, depth, leaf)
+							if inStatic {
+								f = &frame{acts: []*act{{kind: 'C', id: g.id(), ck: "staticcall", addr: "b21", body: f}}, end: "stop"}
+							}
+							tx := &txn{hash: 1, origin: "b10", target: "b20", rootID: 1, body: f, blk: blk}
+							blk.txs = []*txn{tx}
+							runBlock(blk, "precompile:"+k)
+						}
+					}
+				}
+			}
+		}
+	}
+	// message calls straight into a precompile
+	for n := 1; n <= 18 && !done; n++ {
+		for _, end := range []string{"stop", "oog", "invalid"} {
+			for _, value := range []int{0, 5} {
+				leaf := &act{kind: 'C', ck: "call", addr: "b" + strconv.Itoa(100+n), value: 0, body: &frame{end: end}}
+				realizePrec(leaf) // a message call gets no stipend
+				if leaf.body.end != end {
+					continue
+				}
+				blk := &block{cfg: cfgs[0], accounts: stdAccounts(), salts: map[int]*frame{}}
+				blk.txs = []*txn{{hash: 1, origin: "b10", target: leaf.addr, rootID: 1, value: value, body: leaf.body, blk: blk}}
+				runBlock(blk, "precompile:tx")
+			}
+		}
+	}
 	// 2. cross-transaction leakage: tx1 leaves scratch state / logs, tx2 observes
 	for _, cfg := range cfgs {
-		if done || time.Now().After(deadline) {
-			break
-		}
 		g := newGen(r.Fork(), st)
 		g.nextID = 2
 		blk := &block{cfg: cfg, accounts: stdAccounts(), salts: map[int]*frame{}}
@@ -700,8 +742,9 @@ func runSearch(a map[string]string) {
 	h = newHarness()
 	p.h = h
 	h.probe = p
-	// 3. random trees (the correspondence generator) under the same oracles
-	for !done && time.Now().Before(deadline) {
+	// 3. random trees (the correspondence generator) under the same oracles, for the rest of the time
+	// budget (the deterministic phases above always run to the end) but at least 200 blocks
+	for nr := 0; !done && (nr < 200 || time.Now().Before(deadline)); nr++ {
 		g := newGen(r.Fork(), st)
 		runBlock(g.block(), "random")
 	}
